@@ -56,7 +56,8 @@ class Ctl2:
                         break
                     log.append(("item", item))
             elif k == "raise":
-                raise ValueError("E%d" % act[1])
+                from .netexec import body_exception
+                raise body_exception(act[1])
             elif k == "newchan":
                 c = channel.gateway.newchannel()
                 self.newchans.setdefault(cid, []).append(c)
